@@ -59,7 +59,10 @@ def oracle(node, c_ast, gen=None):
         if ids & ids0:
             return f"{what} copy shares objects with the original"
     if gen is not None:
-        t0 = gen.visit(node)
+        try:
+            t0 = gen.visit(node)
+        except Exception:
+            return None          # the generator does not handle this tree at all (C07's concern)
         for what, c in copies + [("eval-repr", n2)]:
             if gen.visit(c) != t0:
                 return f"{what} copy generates different C text"
@@ -141,6 +144,22 @@ def run(ctx, b, broken):
         for e in exts:
             v = from_py(e)
             check(v, "parser-ast", node=e, gen=gen)
+        if len(ast_.ext) < 400:
+            # the translation unit as a whole: what the generator does at file level (and anything keyed on node identity or
+            # on coordinates) must come out the same for every copy
+            check(from_py(ast_), "parser-ast-whole-file", node=ast_, gen=gen)
+    # hand-written programs: declarators sharing one struct / union / enum definition, several files named by linemarkers
+    import semgen
+    from progsuite import ZOO
+    DIRECTED = ['# 1 "a.c"\nint a;\n# 1 "inc.h" 1\nstruct s {int x;} p, *q;\n# 3 "a.c" 2\nenum e {A, B} c, d[2]; typedef union u {int i;} U, *PU;\n# 9 "other.h"\nstruct s r;',
+                "struct s {int x; struct in {int y;} m, n;} a, b, *c; void f(void){ struct t {int z;} l1, l2; enum {P, Q} e1, e2; }",
+                "#pragma top\nint a;\n#line 7\nvoid f(void){\n#pragma in\n a = 1; }\n# 2 \"x.h\"\ntypedef struct {int k;} T1, T2[2];"]
+    for text in DIRECTED + semgen.SEMZOO + [t for t, _v in ZOO]:
+        try:
+            ast_ = c_parser.CParser().parse(text, "d.c")
+        except Exception:
+            continue
+        check(from_py(ast_), "parser-ast-directed", node=ast_, gen=gen)
     if model:
         model.close()
     ctx.notes["rule"] = "non-trivial = a tree with at least one list-valued field and a string needing an escape (quote, backslash, control or non-ASCII); distinct by value"
